@@ -455,6 +455,24 @@ func main() {
 			return true
 		})
 		def("start_drains_stdout_after_scanner", "bool", coqBool(drains), "client.go Start: the stdout goroutine discards the rest of the stream (io.Copy(io.Discard, runner.Stdout())) once the scanner stopped")
+		clearsCert, clearsMux := false, false
+		ast.Inspect(start, func(n ast.Node) bool {
+			switch x := n.(type) {
+			case *ast.BasicLit:
+				if x.Kind == token.STRING && x.Value == `"PLUGIN_CLIENT_CERT="` {
+					clearsCert = true
+				}
+			case *ast.CallExpr:
+				if exprString(x.Fun) == "fmt.Sprintf" && len(x.Args) == 2 {
+					if bl, ok := x.Args[0].(*ast.BasicLit); ok && bl.Value == `"%s="` && exprString(x.Args[1]) == "envMultiplexGRPC" {
+						clearsMux = true
+					}
+				}
+			}
+			return true
+		})
+		def("start_clears_inherited_cert", "bool", coqBool(clearsCert), "client.go Start: appends PLUGIN_CLIENT_CERT= (empty) when AutoMTLS is off")
+		def("start_clears_inherited_mux", "bool", coqBool(clearsMux), "client.go Start: appends PLUGIN_MULTIPLEX_GRPC= (empty) when multiplexing is off")
 		def("start_timers", "list Z", coqZList(timers(start)), "client.go Start: time.After(k*time.Second) occurrences (the start timeout is config.StartTimeout, not a literal)")
 	}
 	// loadServerCert: nil TLSConfig guard
